@@ -184,6 +184,7 @@ class Unit:
         preloops = {}    # loop ordinal -> ghost lines placed between `mut it =>` and `loop` of a desugared loop (R3')
         endloops = {}    # loop ordinal -> ghost lines placed at the end of the loop body (R3)
         innerspecs = {}  # nested fn name -> contract lines
+        innerassumes = set()  # nested fns whose contract is assumed (external_body)
         atend = []       # ghost lines placed at the end of the function body (R3)
         outlines = []    # (name, sig, call, first, last, contract lines) (R12)
         cur = None
@@ -200,6 +201,10 @@ class Unit:
                 inserts.append((mode, anchor.strip(), cur))
             elif s.startswith('//@atend'):
                 cur = atend
+            elif s.startswith('//@innerassume '):
+                # a function nested in this function's body is left unverified: `external_body` + the contract that follows (R8)
+                innerassumes.add(s.split()[1])
+                cur = innerspecs.setdefault(s.split()[1], [])
             elif s.startswith('//@innerspec '):
                 # contract of a function nested in this function's body (spliced into the nested signature, R1)
                 cur = innerspecs.setdefault(s.split()[1], [])
@@ -347,6 +352,12 @@ class Unit:
                 ins.append((im[1], ')', 'inner_ret_close'))
             ins.append((inner['body_open'], '\n' + '\n'.join(lines_) + '\n', 'inner_sig'))
             self.rewrites.append(dict(rule='R1', fn='%s::%s' % (name, iname), result='r'))
+            if iname in innerassumes:
+                ins.append((inner['start'], '#[verifier::external_body] ', 'inner_assume'))
+                self.rewrites.append(dict(rule='R8', fn='%s::%s' % (name, iname), dropped='body not verified (assumed contract of a nested fn)'))
+                self.functions.append(dict(name=iname, impl='(nested in %s)' % name, file=rel, line=src.line_of(inner['sig_start']),
+                                           props=[], safety=[], mode='external_body', out_start=0, out_end=0, loops=0,
+                                           spec_lines=len([l for l in lines_ if l.strip()]), assumed_from=''))
         if atend:
             ins.append((bclose, '\n' + '\n'.join(atend) + '\n', 'atend'))
         for k, lines_ in endloops.items():
